@@ -129,6 +129,27 @@ fn check(input: &In, case: &mut Case) -> Result<(), Fail> {
     // expands to the intended names
     let (back, _) = decode_message(&c).map_err(|e| Fail::new("c07:undecodable", format!("{:?}", e)))?;
     ensure!(names_of(&back) == names_of(&p), "c07:expands-wrong", "compressed output decodes (reference decoder) to different names: {}", diff(&p, &back));
+    // the same packet serialised a second time, and a clone of it after one of its own records was appended: the
+    // pointer rules hold for every compressed output, not only for the first one of a fresh value
+    if p.id % 4 == 3 && c.len() < 16000 {
+        case.class("serialised-again-and-grown");
+        let c2 = ser_compressed(&pk).map_err(|f| Fail::new("c07:compressed-failed", format!("second serialisation: {}", f.msg)))?;
+        check_pointers(&c2, &mut Case::default()).map_err(|f| Fail::new(f.sig, format!("second compressed output of the same packet: {}", f.msg)))?;
+        let (back2, _) = decode_message(&c2).map_err(|e| Fail::new("c07:undecodable", format!("second compressed output: {:?}", e)))?;
+        ensure!(names_of(&back2) == names_of(&p), "c07:expands-wrong", "the second compressed output decodes to different names: {}", diff(&p, &back2));
+        if let Some(r) = pk.answers.last().or(pk.additional_records.last()).cloned() {
+            let mut grown = pk.clone();
+            grown.additional_records.push(r);
+            if let (Ok(u3), Ok(c3)) = (ser_plain(&grown), ser_compressed(&grown)) {
+                // judged only where the plain form of the grown packet decodes (as above)
+                if let Ok((want3, _)) = decode_message(&u3) {
+                    check_pointers(&c3, &mut Case::default()).map_err(|f| Fail::new(f.sig, format!("compressed output of a clone that has grown by one of its own records: {}", f.msg)))?;
+                    let (back3, _) = decode_message(&c3).map_err(|e| Fail::new("c07:undecodable", format!("grown clone: {:?}", e)))?;
+                    ensure!(names_of(&back3) == names_of(&want3), "c07:expands-wrong", "the compressed output of a grown clone decodes to different names: {}", diff(&want3, &back3));
+                }
+            }
+        }
+    }
     // a writer that takes only a few bytes per write call: pointer offsets must not depend on it
     {
         let chunk = 1 + (*origin as usize % 5);
